@@ -13,6 +13,15 @@ var apiFiles = map[string]string{
 	"harness/server/zz_verif_apic17_test.go":  "server/zz_verif_apic17_test.go",
 }
 
+// the -race build has one more file (it refers to the overlaid sync package)
+var apiraceFiles = func() map[string]string {
+	m := map[string]string{"harness/server/zz_verif_racepool_test.go": "server/zz_verif_racepool_test.go"}
+	for k, v := range apiFiles {
+		m[k] = v
+	}
+	return m
+}()
+
 var apiPkgs = []pkgSpec{{
 	dir: "server",
 	full: []string{"routes.go", "sched.go", "create.go", "model.go", "download.go", "upload.go", "images.go",
@@ -48,7 +57,7 @@ func init() {
 		testPkg:     "server",
 		testFunc:    "TestVerifAPIRace",
 		pkgs:        apiracePkgs,
-		files:       apiFiles,
+		files:       apiraceFiles,
 		race:        true,
 		generations: 4,
 	}, map[string]propSpec{
